@@ -151,8 +151,11 @@ def esc(s):
     return "".join(out)
 
 
-def run_harness(cases, tag="batch", timeout=3000):
+def run_harness(cases, tag="batch", timeout=None):
     """cases: list of dicts (see harness/src/main.rs). Returns list of result dicts."""
+    if timeout is None:
+        # a batch of the quick tier takes seconds; a rewrite call that never returns must not cost the check an hour
+        timeout = 3000 if os.environ.get("VERIF_TIER") == "thorough" else 600
     inp = os.path.join(CACHE, "cases-%s-%d.jsonl" % (tag, os.getpid()))
     outp = os.path.join(CACHE, "impl-%s-%d.jsonl" % (tag, os.getpid()))
     with open(inp, "w") as f:
@@ -164,7 +167,7 @@ def run_harness(cases, tag="batch", timeout=3000):
         for f in (inp, outp):
             if os.path.exists(f):
                 os.remove(f)
-        raise
+        raise BuildError("harness-run", "the harness did not finish a batch of %d calls within %d s: a rewrite call does not return (the business of C13)" % (len(cases), timeout))
     if rc != 0:
         raise BuildError("harness-run", out[-2000:])
     res = [json.loads(l) for l in open(outp)]
